@@ -52,11 +52,11 @@
    the source by (iii): the package-level variables, the writes to them, the
    methods called on them and the writes through syntax-tree / registry /
    bundle typed values in soyhtml, soyjs and template are enumerated from the
-   source on every run and must equal the reviewed lists
-   ([C09_package_state_reviewed]). *)
+   source on every run and must satisfy what the review concluded
+   ([C09_package_state_quiet]). *)
 From Coq Require Import List Arith.
 From Soy Require Import Model.Bytes Model.Values Model.Outcome Model.Ast Model.Interp Model.JsGen Generated.JsGenTrace
-  Model.Compile Model.Conc Model.ConcRender Model.ConcJs Generated.Tables Model.ConcGlobals
+  Model.Compile Model.Conc Model.ConcRender Model.ConcJs Generated.PkgState Model.ConcGlobals
   Proofs.ConcProofs Proofs.PurityProofs Proofs.ConcRenderProofs Proofs.ConcJsProofs Proofs.ConcGlobalsProofs.
 Import ListNotations.
 Open Scope N_scope.
@@ -219,38 +219,42 @@ Theorem C09_any_access_placement :
 Proof. exact any_access_placement. Qed.
 Print Assumptions C09_any_access_placement.
 
-(* ---------------- (iii) the package-level state of the source is the reviewed one ---------------- *)
+(* ---------------- (iii) the package-level state of the source is quiet ---------------- *)
 
-(* Generated/Tables.v lists, from the current Go sources: every package-level variable, every write to
-   one in a function body, every method called on one, every write through a syntax-tree / registry /
-   bundle typed value in soyhtml, soyjs, template.  They equal the reviewed lists of Model/ConcGlobals.v. *)
-Theorem C09_package_state_reviewed :
-  pkg_vars = map var_key reviewed_pkg_vars
-  /\ pkg_var_writes = reviewed_pkg_var_writes
-  /\ pkg_var_methods = reviewed_pkg_var_methods
-  /\ shared_type_writes = reviewed_shared_type_writes.
-Proof.
-  split; [exact pkg_vars_reviewed|]. split; [exact pkg_var_writes_reviewed|].
-  split; [exact pkg_var_methods_reviewed|exact shared_type_writes_reviewed].
-Qed.
-Print Assumptions C09_package_state_reviewed.
-
-(* hence: package-level variables are written only by init functions; methods are called only on
-   regexps, replacers and loggers (or in commands); there is no package-level pool or lock; the only
-   writes through shared types are Registry.Add (the registry under compilation) and the capped append
-   of the repaired evalPrint -- soyjs has none *)
+(* Generated/PkgState.v lists, from the current Go sources: every package-level variable, every write
+   to one in a function body, every method called on one, every write through a syntax-tree / registry /
+   bundle typed value in soyhtml, soyjs, template.  By computation on those lists:
+   - every package-level variable is a regexp, replacer, logger, error, reflect.Type, flag, literal or a
+     table built by its initialiser -- the only variable of a kind that can hold mutable state is the
+     verification hook: there is no package-level pool, lock, Once, channel, lazily assigned variable;
+   - every write to a package-level variable is in an init function (commands excepted);
+   - every method called on one is a reviewed read-only / internally locked method;
+   - every write through a shared type is Registry.Add building the registry under compilation or a
+     capped append; the JavaScript generator has none, the renderer only the capped append. *)
 Theorem C09_package_state_quiet :
-  (forall w, In w pkg_var_writes -> write_in_init w = true)
-  /\ (forall m, In m pkg_var_methods -> method_on_safe_object m = true)
-  /\ (forall v, In v pkg_vars -> no_pool_or_lock v = true)
+  (forall d n k, In (d, n, k) pkg_vars -> kind_quiet k = true \/ In (d, n, k) reviewed_loud_vars)
+  /\ (forall w, In w pkg_var_writes -> write_in_init w = true)
+  /\ (forall m, In m pkg_var_methods -> method_reviewed m = true)
   /\ (forall w, In w shared_type_writes -> shared_write_benign w = true)
-  /\ filter (in_pkg (b "soyjs")) shared_type_writes = [].
+  /\ filter (in_pkg k_soyjs) shared_type_writes = []
+  /\ (forall w, In w (filter (in_pkg k_soyhtml) shared_type_writes) -> kind_of_write w = k_capped).
 Proof.
-  split; [exact package_writes_only_in_init|]. split; [exact package_methods_only_on_safe_objects|].
-  split; [exact no_package_level_pool_or_lock|]. split; [exact shared_type_writes_benign|].
-  exact soyjs_never_writes_through_shared_types.
+  split; [exact package_vars_quiet|]. split; [exact package_writes_only_in_init|].
+  split; [exact package_methods_reviewed|]. split; [exact shared_type_writes_benign|].
+  split; [exact soyjs_never_writes_through_shared_types|exact soyhtml_writes_through_shared_types_only_capped].
 Qed.
 Print Assumptions C09_package_state_quiet.
+
+(* the predicates are not vacuous: they reject a pool, a write outside init, a cache's method, a write
+   through a node in the renderer *)
+Example C09_package_predicates_reject :
+  kind_quiet (b "pool") = false /\ kind_quiet (b "zero:int") = false /\ kind_quiet (b "sync") = false
+  /\ write_in_init (b "template", b "cache", b "template:(*Registry).Template", b "assign-element") = false
+  /\ method_reviewed (b "parse", b "lexers", b "parse:startLexer", b "Get") = false
+  /\ shared_write_benign (b "soyhtml", b "node.Directives", b "soyhtml:(*state).evalPrint", b "assign-through") = false
+  /\ shared_write_benign (b "soyjs", b "directives", b "soyjs:(*state).visitPrint", b "append-to") = false
+  /\ (1 < length pkg_vars /\ 0 < length pkg_var_writes /\ 0 < length pkg_var_methods /\ 0 < length shared_type_writes)%nat.
+Proof. vm_compute. repeat split; try reflexivity; repeat constructor. Qed.
 
 (* ---------------- what the theory rules out ---------------- *)
 
